@@ -119,6 +119,21 @@ class Axioms:
                         out.append(t == f(head) + pow_term(256, z3.Length(head)) * f(restt))
                 if z3.is_app_of(b, z3.Z3_OP_SEQ_UNIT):
                     out.append(t == b.children()[0])
+                # prefix / suffix of a longer value: split law  v(c) = v(c[:k]) (+) v(c[k:])
+                if z3.is_app_of(b, z3.Z3_OP_SEQ_EXTRACT):
+                    c, o, l = b.children()
+                    f = sym.F_be if name == "be" else sym.F_le
+                    nc = z3.Length(c)
+                    rest = z3.Extract(c, o + l, nc - (o + l))
+                    pre = z3.Extract(c, lit(0), o)
+                    inb = z3.And(o >= 0, l >= 0, o + l <= nc)
+                    if name == "be":
+                        # be(c) = be(pre)*256^(nc-o) + be(b)*256^(nc-o-l) + be(rest)
+                        out.append(z3.Implies(z3.And(inb, o == 0), f(c) == t * pow_term(256, nc - l) + f(rest)))
+                        out.append(z3.Implies(z3.And(inb, o + l == nc), f(c) == f(pre) * pow_term(256, l) + t))
+                    else:
+                        out.append(z3.Implies(z3.And(inb, o == 0), f(c) == t + pow_term(256, l) * f(rest)))
+                        out.append(z3.Implies(z3.And(inb, o + l == nc), f(c) == f(pre) + pow_term(256, o) * t))
             elif name in ("tobe", "tole"):
                 self.used.add("tobe/tole")
                 x, n = ch
